@@ -132,8 +132,22 @@ def check(run, tier):
             insts = [i for i in f.instances if i["name"] == root]
             ok = False
             if insts:
-                I.analyse_root(insts[0])
+                R_, frame_, _args = I.analyse_root(insts[0])
                 ok = seen["split"] is not None and seen["ctor"] is not None and seen["split"] == seen["ctor"] and None not in seen["split"]
+                if not ok and seen["split"] is not None and None not in seen["split"] and root.startswith("tz::datetime::DateTime::"):
+                    # the constructors may share a private helper instead of calling each other: decide on the result —
+                    # the Unix-time and nanosecond fields (those returned by the public getters) of every Ok result are
+                    # exactly the split's two components
+                    from .. import escale as _E
+
+                    g_ut, g_ns = _E.getter_field(f, "tz::datetime::DateTime::unix_time"), _E.getter_field(f, "tz::datetime::DateTime::nanoseconds")
+                    fin = R_.cells.get((frame_, 0)) if R_ is not None else None
+                    pay = fin.variants["Ok"][0] if isinstance(fin, Enum) and "Ok" in fin.variants and fin.variants["Ok"] else None
+                    if isinstance(pay, Struct) and g_ut is not None and g_ns is not None:
+                        fu, fn_ = pay.fields[g_ut[1]], pay.fields[g_ns[1]]
+                        if isinstance(fu, Scalar) and isinstance(fn_, Scalar) and [fu.sym, fn_.sym] == seen["split"]:
+                            ok = True
+                            seen["ctor"] = "result fields"
                 # a zone lookup made on the way must be made at the split's seconds
                 if ok and seen["lookup"] is not None and seen["lookup"] != seen["split"][0]:
                     ok = False
